@@ -10,7 +10,7 @@ THEOREMS = [
     "C35_caps_roundtrip", "C35_hash_roundtrip", "C35_report_roundtrip",
     "C35_shupd_sha256_refuted", "C35_shupd_roundtrip_partial", "C35_uphav_roundtrip",
     "C35_pushopts_roundtrip", "C35_srvresp_roundtrip", "C35_advrefs_roundtrip", "C35_advrefs_first_peeled",
-    "C35_ulreq_filter_refuted",
+    "C35_updreq_roundtrip", "C35_ulreq_filter_refuted", "C35_ulreq_roundtrip_partial",
 ]
 MODEL_FILES = ["PktLine.v", "Packp.v"]
 MODELLED = ("plumbing/protocol/capability/list.go DecodeList / Add / AppendText; plumbing/objectid.go FromHex / NewHash / String / IsZero / Compare; "
@@ -338,8 +338,8 @@ class Msgs(Suite):
     name = "messages"
     go_cmd = "c35"
     coq_imports = "From GoGit Require Import Model.PktLine Model.Packp."
-    quick_n = 520
-    thorough_n = 8000
+    quick_n = 480
+    thorough_n = 3000
     coq_chunk = 70
 
     def gen(self, rng, n, tier):
